@@ -485,4 +485,47 @@ def specAtomLoop (atoms : List AtomS) : List Row := (atoms.filter fun a => !a.qp
 
 def specAdpLoop (atoms : List AtomS) : List AdpRow := (atoms.filter fun a => !a.qpeak && specAniso a).map adpOf
 
+/-! ## (d) histories on one object
+
+  `read_file`/`read_string`/`reload` re-initialise the object and parse, API edits change it, `to_cif` reads it.
+  The code keeps no state between exports (no cache): the model of an export is a function of the current state. -/
+
+/-- one Shelxfile object as far as the CIF writer reads it -/
+structure Obj where
+  src : Src
+  atoms : List AtomS
+
+inductive Step
+  | read (o : Obj)            -- read_file / read_string / reload
+  | edit (f : Obj → Obj)      -- any edit through the API
+  | write                     -- to_cif
+
+/-- what one `to_cif` writes: data items, atom loop, ADP loop -/
+structure Cif where
+  items : Except PyErr (List (String × Val))
+  atomRows : List Row
+  adpRows : List AdpRow
+
+def exportCif (o : Obj) : Cif := ⟨cifItems o.src, atomLoop o.atoms, adpLoop o.atoms⟩
+
+def step (o : Obj) : Step → Obj
+  | .read o' => o'
+  | .edit f => f o
+  | .write => o
+
+/-- the life of the object: every export appends a CIF, every other step changes the state -/
+def runHist : Obj → List Step → List Cif
+  | _, [] => []
+  | o, .write :: t => exportCif o :: runHist o t
+  | _, .read o' :: t => runHist o' t
+  | o, .edit f :: t => runHist (f o) t
+
+/-- specification side: the CIF a state calls for, and the number of exports in a prefix -/
+def specCif (o : Obj) : Cif := ⟨cifItems o.src, specAtomLoop o.atoms, specAdpLoop o.atoms⟩
+
+def countExports : List Step → Nat
+  | [] => 0
+  | .write :: t => countExports t + 1
+  | _ :: t => countExports t
+
 end Shelx.C18
